@@ -25,7 +25,8 @@ LEVEL_NOTE = 'Trusted: vlib/reflex.py, vlib/luagen.py.'
 TECHNIQUE = 'Hypothesis-generated header shapes and programs; byte-prefix + reference-lexer token oracles'
 
 WORDS = [b'my game', b'by someone', b'v1.0', b'', b'title: x=1', b'\x8e\x97 glyphs', b'end', b'"quoted', b'a -- b',
-         b'// c', b'[[', b'if (a) b', b'--', b'[==[ star hopper ]==]', b'[=[ by c19 ]=]']
+         b'// c', b'[[', b'if (a) b', b'--', b'[==[ star hopper ]==]', b'[=[ by c19 ]=]',
+         b'>8', b'>8', b'!plain', b'#include x.lua']        # (`-->8` is PICO-8's tab separator: an ordinary comment to the lexer)
 
 
 def gen_header(ch, nl):
@@ -230,6 +231,8 @@ def fixed_shapes():
     yield b'-- title\n-- author\n-- third\nx=1 -- later\n'
     yield b'--title\nx=1\n--not header\ny=2\n'
     yield b'x=1\n-- not a header\n'
+    yield b'-- cave diver\n-->8\n-- helpers\nfunction f(a) return a end\n'
+    yield b'-->8\n-- tab two\nx=1\n'
     yield b'// title\n// author\nx=1\n'
     yield b'--[[title]]--[[author]]x=1\n'
     yield b'--[[title]] x=1 --[[later]] y=2\n'
